@@ -11,7 +11,8 @@ use serde_json::json;
 use std::collections::BTreeSet;
 
 const TARGET_KINDS: [&str; 6] = ["struct", "generic-struct", "unit-enum", "tagged-enum", "newtype", "alias"];
-const POSITIONS: [&str; 20] = [
+const POSITIONS: [&str; 23] = [
+    "array", "vec-of-array", "slice",
     "field", "vec", "option", "map-value", "generic-arg", "variant-payload", "variant-field", "alias-target", "self-box", "param-field", "param-payload", "param-variant-field", "param-alias",
     // two (or three) separately renamed types inside one type expression
     // a struct variant of an enum with two parameters, the fields mentioning them in the reverse of the declared order
@@ -163,6 +164,9 @@ pub fn program(c: &Case) -> File {
             items.push(pair(true));
             Item::new("Referrer", IKind::Alias(pair_of(t, Ty::user("Snd"))))
         }
+        "array" => Item::strukt("Referrer", vec![Field::new("r", Ty::Array(Box::new(t), 2))]),
+        "vec-of-array" => Item::new("Referrer", IKind::Alias(Ty::Vec(Box::new(Ty::Array(Box::new(t), 3))))),
+        "slice" => Item::enumm("Referrer", vec![Variant::new("P", VKind::Newtype(Ty::Slice(Box::new(t)))), Variant::new("U", VKind::Unit)]),
         "field" => Item::strukt("Referrer", vec![Field::new("r", t)]),
         "vec" => Item::strukt("Referrer", vec![Field::new("r", Ty::Vec(Box::new(t)))]),
         "option" => Item::strukt("Referrer", vec![Field::new("r", Ty::Option(Box::new(t)))]),
